@@ -43,6 +43,35 @@ func init() {
 			binders: "(client : KM.GoTypes.OpenIDConnectClientConfig)", retLean: "Bool"},
 		glTarget{pkg: "cmd/keymasterd", name: "ClientCanDoPKCEAuth", group: "Oidc",
 			binders: "(client : KM.GoTypes.OpenIDConnectClientConfig)", retLean: "Bool × Option KM.Go.Err"},
+		glTarget{pkg: "cmd/keymasterd", name: "idpOpenIDCGetClientConfig", group: "Oidc",
+			binders: "(clients : List KM.GoTypes.OpenIDConnectClientConfig)",
+			paths: map[string][2]string{
+				"state.Config.OpenIDConnectIDP.Client": {"clients", "[]OpenIDConnectClientConfig"},
+				"ErrorIDPClientNotFound":               {"(some \"client not found\".toList)", "error"}},
+			retLean: "Option KM.GoTypes.OpenIDConnectClientConfig × Option KM.Go.Err"},
+		// C08
+		glTarget{pkg: "cmd/keymasterd", name: "isAutomationAdmin", group: "Admin",
+			binders: "(isAdminUser : List Char → Bool) (automationAdmins : List (List Char))",
+			paths: map[string][2]string{
+				"state.IsAdminUser(user)":            {"(isAdminUser user)", "bool"},
+				"state.Config.Base.AutomationAdmins": {"automationAdmins", "[]string"}},
+			retLean: "Bool"},
+		glTarget{pkg: "cmd/keymasterd", name: "isAutomationUser", group: "Admin",
+			binders: "(getUserGroups : List Char → List (List Char) × Option KM.Go.Err) (automationUsers automationUserGroups : List (List Char))",
+			paths: map[string][2]string{
+				"state.Config.Base.AutomationUsers":      {"automationUsers", "[]string"},
+				"state.Config.Base.AutomationUserGroups": {"automationUserGroups", "[]string"}},
+			externs: map[string]glExtern{"state.getUserGroups": {"getUserGroups", []string{"[]string", "error"}}},
+			retLean: "Bool × Option KM.Go.Err"},
+		// C01: the level test of certGenHandler (the statements between the credential check and the refusal)
+		glTarget{pkg: "cmd/keymasterd", name: "certgenSufficientAuthLevel", group: "CertGen", natInts: true,
+			in: "certGenHandler", blockFrom: "sufficientAuthLevel := false", blockUpto: "if !sufficientAuthLevel",
+			blockResult: "sufficientAuthLevel", blockResGo: "bool",
+			binders: "(allowedForCerts : List (List Char)) (authType : Nat)",
+			paths: map[string][2]string{
+				"state.Config.Base.AllowedAuthBackendsForCerts": {"allowedForCerts", "[]string"},
+				"authData.AuthType":                             {"authType", "int"}},
+			retLean: "Bool"},
 		// C01 / C06
 		glTarget{pkg: "cmd/keymasterd", name: "getRequiredWebUIAuthLevel", group: "Auth",
 			binders: "(allowedWebUI : List (List Char))", natInts: true,
